@@ -16,6 +16,9 @@ def fastabs(x):
 
 def cs3(z):
     n = 0
+    if not math.isfinite(z):          # fix 805dfda: if (!isfinite(z)) { cs[0..3] = nan; return; }
+        nan = float("nan")
+        return nan, nan, nan, nan
     while abs(z) > 0.1:
         z = z / 4.0
         n += 1
